@@ -278,7 +278,7 @@ const memGuardBytes = 768 << 20
 // < 1 KiB in one step. Normal processing emits a few events per value; a scanner that stands still or moves backwards
 // emits several per iteration, without end. Passing the bound is positive evidence of unbounded work, decided by an
 // event count (deterministic), not by time.
-const workGuardEvents = 300000
+const workGuardEvents = 100000
 
 type nullFormatter struct{}
 
